@@ -46,7 +46,9 @@ PolarGrid::PolarGrid(const double& R0, const double& Rmax, const int nr_exp, con
                      const double& refinement_radius, const int anisotropic_factor, const int divideBy2,
                      std::optional<double> splitting_radius)
 {
-    assert(R0 > 0.0 && Rmax > R0 && !equals(R0, Rmax));
+    if (!(R0 > 0.0 && Rmax > R0 && !equals(R0, Rmax))) {
+        throw std::invalid_argument("The radii must satisfy 0 < R0 < Rmax.");
+    }
     // Construct radii_ and angles_
     constructRadialDivisions(R0, Rmax, nr_exp, refinement_radius, anisotropic_factor);
     constructAngularDivisions(ntheta_exp, nr_);
@@ -121,6 +123,9 @@ void PolarGrid::constructAngularDivisions(const int ntheta_exp, const int nr)
 // divideBy2: Number of times to divide both radial and angular divisions by 2.
 void PolarGrid::refineGrid(const int divideBy2)
 {
+    if (divideBy2 < 0) {
+        throw std::invalid_argument("divideBy2 must not be negative.");
+    }
     radii_                = divideVector(radii_, divideBy2);
     angles_               = divideVector(angles_, divideBy2);
     nr_                   = radii_.size();
